@@ -14,6 +14,7 @@ import (
 	"testing"
 	"time"
 
+	corestore "cosmossdk.io/core/store"
 	"github.com/cosmos/iavl"
 	dbm "github.com/cosmos/iavl/db"
 	"pgregory.net/rapid"
@@ -32,6 +33,36 @@ type FaultCall struct {
 	// NoLoad: the call is the FIRST call on a brand-new handle (no Load before it): whatever the handle has to discover
 	// about the store (latest / first version, legacy versions, index label) is discovered under the faults
 	NoLoad bool `json:"no_load,omitempty"`
+	// Sync: the faulted handle is opened with SyncOption(true) (commits go through WriteSync)
+	Sync bool `json:"sync,omitempty"`
+	// Prefixed: the faulted handle sits on a PrefixDB namespace of the store (as every SDK store does); the faults are
+	// injected below the PrefixDB, so its iterators and batches have to pass the failure on
+	Prefixed bool `json:"prefixed,omitempty"`
+}
+
+var c17Prefix = []byte("s/k:c17/")
+
+// viewOf: the store as the tree sees it
+func (c FaultCall) viewOf(db corestore.KVStoreWithBatch) corestore.KVStoreWithBatch {
+	if c.Prefixed {
+		return dbm.NewPrefixDB(db, c17Prefix)
+	}
+	return db
+}
+
+// imageOf: a fresh copy of the base image (under the namespace prefix if the call is prefixed)
+func (c FaultCall) imageOf(base map[string][]byte) *dbm.MemDB {
+	if !c.Prefixed {
+		return MemDBFrom(base)
+	}
+	pb := make(map[string][]byte, len(base)+2)
+	for k, v := range base {
+		pb[string(c17Prefix)+k] = v
+	}
+	// foreign keys around the namespace
+	pb["s/k:c17"] = []byte("outside-below")
+	pb["s/k:c170"] = []byte("outside-above")
+	return MemDBFrom(pb)
 }
 
 type FaultCase struct {
@@ -367,17 +398,17 @@ func runFault(c FaultCase) (v *Violation, st faultStats) {
 	if call.Flush > 0 {
 		flush = call.Flush
 	}
-	opts := []iavl.Option{iavl.FlushThresholdOption(flush)}
+	opts := []iavl.Option{iavl.FlushThresholdOption(flush), iavl.SyncOption(call.Sync)}
 	if w.Cfg.InitVer > 0 && call.Kind != "import" {
 		opts = append(opts, iavl.InitialVersionOption(w.Cfg.InitVer))
 	}
 	// one attempt: fresh image, cold handle, faults armed after Load
 	var lastTree *iavl.MutableTree // the handle of the most recent attempt (for the continuation after a failed prune)
 	attempt := func(fail []int) (callResult, *TraceDB, *dbm.MemDB, error) {
-		img := MemDBFrom(base)
+		img := call.imageOf(base)
 		tdb := NewTraceDBOn(img)
 		tdb.NoJournal = true
-		tr := iavl.NewMutableTree(tdb, call.Cache, call.Skip, iavl.NewNopLogger(), opts...)
+		tr := iavl.NewMutableTree(call.viewOf(tdb), call.Cache, call.Skip, iavl.NewNopLogger(), opts...)
 		if call.Kind != "loadversion" && call.Kind != "import" && !call.NoLoad {
 			if _, err := tr.Load(); err != nil {
 				return callResult{}, nil, nil, err
@@ -489,7 +520,7 @@ func reopenAfterFault(img *dbm.MemDB, pre modelSnap, call FaultCall, r callResul
 			v = &Violation{Prop: "C17", Obs: "reopen.panic", Msg: fmt.Sprint(x)}
 		}
 	}()
-	tr := iavl.NewMutableTree(img, 0, true, iavl.NewNopLogger())
+	tr := iavl.NewMutableTree(call.viewOf(img), 0, true, iavl.NewNopLogger())
 	lv, err := tr.Load()
 	if err != nil {
 		return &Violation{Prop: "C17", Obs: "reopen.load", Msg: fmt.Sprintf("store left behind by the failed %s cannot be loaded: %v", call.Kind, err)}
@@ -543,7 +574,7 @@ func continueAfterFailedPrune(tr *iavl.MutableTree, img *dbm.MemDB, pre modelSna
 	if _, _, err := tr.SaveVersion(); err != nil {
 		return nil
 	}
-	fresh := iavl.NewMutableTree(img, 0, true, iavl.NewNopLogger())
+	fresh := iavl.NewMutableTree(call.viewOf(img), 0, true, iavl.NewNopLogger())
 	if _, err := fresh.Load(); err != nil {
 		return &Violation{Prop: "C17", Obs: "continue.load", Msg: fmt.Sprintf("DeleteVersionsTo(%d) failed, the next commit on the same handle succeeded, and the store no longer loads: %v", call.N, err)}
 	}
@@ -627,6 +658,8 @@ func genFaultCall(t *rapid.T, w *World) FaultCall {
 			c.Skip = true
 		}
 	}
+	c.Sync = rapid.IntRange(0, 3).Draw(t, "fsync") == 0
+	c.Prefixed = rapid.IntRange(0, 3).Draw(t, "fprefixed") == 0
 	if isWriteCall(c.Kind) && rapid.IntRange(0, 5).Draw(t, "smallFlush") == 0 {
 		// automatic flushes inside the operation: only the error-vs-success oracle applies (the store left behind by a
 		// failed multi-batch operation is the F7 family)
@@ -692,7 +725,7 @@ func TestC17(t *testing.T) {
 		for _, k := range ks {
 			Count("C17", "faulted_"+k, st.kinds[k])
 		}
-		RecordCase("C17", c, st.positions >= 2 && st.errored >= 1, map[string]bool{"call_" + call.Kind: true, "write_call": isWriteCall(call.Kind), "first_call_on_a_new_handle": call.NoLoad})
+		RecordCase("C17", c, st.positions >= 2 && st.errored >= 1, map[string]bool{"call_" + call.Kind: true, "write_call": isWriteCall(call.Kind), "first_call_on_a_new_handle": call.NoLoad, "sync_option": call.Sync, "prefixed_store": call.Prefixed})
 	})
 }
 
